@@ -299,6 +299,19 @@ rc::Gen<Case> gen_main() {
   return make_case({{"lg_max_k", rc::gen::weightedOneOf<int64_t>({{5, range(4, 8)}, {3, range(9, 13)}, {1, range(14, 21)}})}, {"rtype", range(0, 2)}, {"perm", range(0, 1 << 20)}}, ops);
 }
 
+// large precisions: unions and inputs with 2^16 .. 2^21 registers (inputs start full size or carry tens of thousands of items), so that
+// down-sampling folds onto arrays with more than 65 536 registers
+rc::Gen<Case> gen_big() {
+  using namespace vf;
+  auto nGen = rc::gen::weightedOneOf<int64_t>({{2, range(0, 200)}, {2, range(200, 5000)}, {3, range(20000, 120000)}});
+  auto skBase = op4("sk", range(11, 17), range(0, 2), rc::gen::weightedOneOf<int64_t>({{3, rc::gen::just<int64_t>(0)}, {1, range(1, 3)}}), range(0, 5999));
+  auto sk = rc::gen::map(rc::gen::tuple(skBase, nGen), [](std::tuple<Op, int64_t> t) { Op o = std::get<0>(t); o.a.push_back(std::get<1>(t)); return o; });
+  auto hist = choose({{8, op2("u_sk", range(0, 5), range(0, 1))}, {1, op2("u_raw", range(0, T_NTYPES - 1), raw_gen())}, {1, op1("res", range(0, 2))}, {1, op1("est", range(0, 1))}});
+  auto ops = rc::gen::map(rc::gen::tuple(rc::gen::mapcat(range(2, 3), [sk](int64_t n) { return rc::gen::container<std::vector<Op>>(static_cast<size_t>(n), sk); }), oplist(hist, 2, 0.04)),
+                          [](std::tuple<std::vector<Op>, std::vector<Op>> t) { auto v = std::get<0>(t); auto& h = std::get<1>(t); v.insert(v.end(), h.begin(), h.end()); return v; });
+  return make_case({{"lg_max_k", range(15, 21)}, {"rtype", range(0, 2)}, {"perm", range(0, 1 << 20)}}, ops);
+}
+
 }  // namespace
 
 int main(int argc, char** argv) {
@@ -308,5 +321,5 @@ int main(int argc, char** argv) {
                          "result image is decoded from the documented layout and compared exactly with the reference coupon/register model at the model's lg_k, "
                          "with a permuted replay and with a single sketch fed every item; non-trivial = >=2 HLL-mode inputs with different lg_k, or a first "
                          "HLL input that had to be down-sampled followed by a second HLL input; distinct = distinct case text",
-                         {{"main", gen_main, prop, 1.0}});
+                         {{"main", gen_main, prop, 1.0}, {"big", gen_big, prop, 0.03, 100}});
 }
